@@ -207,7 +207,9 @@ partial def parseView (sd : Nat) (cs : List Char) : Option (View × List Char) :
     pure (.any (.elem "#arc" [] .unit) (.text s), r)
   | 'c' :: r => do
     let (s, r) ← hexField r
-    pure (.any (.elem "#cow" [] .unit) (.text s), r)
+    -- `Cow<'static, str>`: `RenderHtml::Owned = String` and an `AnyView` is made of `into_owned()`: it *is* a `String` view
+    -- (same `TypeId`, rebuilt in place against a `String` and vice versa)
+    pure (.text s, r)
   | '3' :: i :: r => do
     if i != '0' && i != '1' && i != '2' then none
     let (v, r) ← parseView sd r
